@@ -132,7 +132,7 @@ func genC09(t *rapid.T) *Case {
 		}
 		c.Ops = append(c.Ops, Op{K: "raw", S: i, Msg: &RawMsg{Type: 1, Fields: []V{VURI(realm), V{T: "dict", K: details}}}, N: 777})
 		// response to a possible challenge
-		kind := pick(t, []string{"correct", "correct", "correct", "wrongkey", "otheruser", "replay", "replay", "bitflip", "malformed", "wronglen", "empty", "nonauth", "silence"}, "resp")
+		kind := pick(t, []string{"correct", "correct", "correct", "wrongkey", "otheruser", "replay", "replay", "bitflip", "malformed", "wronglen", "empty", "nonauth", "nonauth", "silence"}, "resp")
 		switch kind {
 		case "silence":
 			c.Ops = append(c.Ops, Op{K: "advance", Ns: pick(t, []int64{59e9, 60e9, 61e9}, "silence")})
@@ -147,6 +147,12 @@ func genC09(t *rapid.T) *Case {
 			c.Ops = append(c.Ops, Op{K: "authresp", S: i, Mode: "correct", Err: other})
 		default:
 			c.Ops = append(c.Ops, Op{K: "authresp", S: i, Mode: kind})
+			if kind == "nonauth" && pct(t, 50, "pipelined") {
+				// the client does not wait for the CHALLENGE: HELLO and the next message are
+				// written back to back
+				c.Ops[len(c.Ops)-2].Par = true
+				c.Ops[len(c.Ops)-1].Par = true
+			}
 		}
 		// ordinary requests regardless of the outcome
 		c.Ops = append(c.Ops, Op{K: "publish", S: i, URI: "verif.canary", Opts: []KV{{"acknowledge", VBool(true)}}, Args: []V{VInt(i)}})
@@ -468,7 +474,7 @@ func (o *c09Oracle) OnStep(e *Engine, st *StepRec) *Violation {
 		case want == "abort" && cd.outcome == "welcome":
 			return o.fail(st, "session %d was sent WELCOME although it must not be attached: %s (HELLO %s; challenge %s; response %s)", s, why, msgOrNil(cd.firstHello), msgOrNil(cd.challenge), msgOrNil(cd.response))
 		case want == "welcome" && cd.outcome == "abort":
-			return o.fail(st, "session %d was refused although it presented valid credentials: %s (HELLO %s; challenge %s; response %s)", s, why, msgOrNil(cd.firstHello), msgOrNil(cd.challenge), msgOrNil(cd.response))
+			return o.fail(st, "session %d was refused although it presented valid credentials: %s (HELLO %s; challenge %s; response %s)\n%s", s, why, msgOrNil(cd.firstHello), msgOrNil(cd.challenge), msgOrNil(cd.response), bubbleStacks())
 		}
 		if cd.outcome == "welcome" {
 			if v := o.checkIdentity(e, st, cd, local); v != nil {
